@@ -386,21 +386,21 @@ Start(op, t) ==
   /\ UNCHANGED <<engs, hist, fuel, halted, pc, tpc>>
 
 Take ==
-  /\ cur.r = 0 /\ ~halted /\ ~Threaded /\ pc <= Len(Steps)
+  /\ cur.r = 0 /\ ~halted /\ pc <= Len(Steps)
   /\ \E i \in DOMAIN Steps[pc] :
         LET op == Steps[pc][i] IN OpEnabled(op) /\ (Imm(op, 0) \/ Start(op, 0))
   /\ UNCHANGED idx
 
 Skip ==
-  /\ cur.r = 0 /\ ~halted /\ ~Threaded /\ pc <= Len(Steps)
+  /\ cur.r = 0 /\ ~halted /\ pc <= Len(Steps)
   /\ \A i \in DOMAIN Steps[pc] : ~OpEnabled(Steps[pc][i])
   /\ pc' = pc + 1
   /\ UNCHANGED <<idx, engs, runs, cur, hist, fuel, halted, tpc>>
 
-\* threads: any thread may perform its next operation (an operation that is not enabled,
-\* e.g. next on a run that has ended, is skipped)
+\* threads: once the common `steps` prefix is done, any thread may perform its next operation
+\* (an operation that is not enabled, e.g. next on a run that has ended, is skipped)
 TakeT ==
-  /\ cur.r = 0 /\ ~halted /\ Threaded
+  /\ cur.r = 0 /\ ~halted /\ Threaded /\ pc > Len(Steps)
   /\ \E t \in DOMAIN Threads :
         /\ tpc[t] <= Len(Threads[t])
         /\ LET op == Threads[t][tpc[t]] IN
@@ -485,7 +485,7 @@ Init == /\ idx \in 1..Len(Scns)
 Next == Take \/ Skip \/ TakeT \/ Micro
 Spec == Init /\ [][Next]_vars
 
-AllDone == IF Threaded THEN \A t \in DOMAIN Threads : tpc[t] > Len(Threads[t]) ELSE pc > Len(Steps)
+AllDone == pc > Len(Steps) /\ (Threaded => \A t \in DOMAIN Threads : tpc[t] > Len(Threads[t]))
 Finished == halted \/ (cur.r = 0 /\ AllDone)
 
 ----------------------------------------------------------------------------
@@ -529,6 +529,20 @@ SnapshotsOK ==
      cp.kind \in {"retract", "alts"} =>
         \A p, q \in DOMAIN cp.snap : p # q => cp.snap[p].id # cp.snap[q].id
 
+
+\* C07 (action property, independent of the definitions of the steps): in one step the facts of a
+\* key change only by one fresh fact appended at the end, one fresh fact put in front, or removal
+\* of facts with the order of the survivors preserved; fact identities are never reused
+DbStepShape ==
+  [][\A e \in DOMAIN engs :
+       /\ engs'[e].nf >= engs[e].nf
+       /\ \A k \in DOMAIN engs'[e].db :
+            LET old == Get(engs[e].db, k)
+                new == engs'[e].db[k] IN
+            \/ new = old
+            \/ (Len(new) = Len(old) + 1 /\ SubSeq(new, 1, Len(old)) = old /\ new[Len(new)].id = engs[e].nf)
+            \/ (Len(new) = Len(old) + 1 /\ Tail(new) = old /\ new[1].id = engs[e].nf)
+            \/ new = SelectSeq(old, LAMBDA f : \E i \in DOMAIN new : new[i].id = f.id)]_vars
 
 \* C01/C05/C06: where the scenario carries reference answers (computed by the denotational
 \* semantics of Control.tla, or taken from the textbook corpus), the machine's answers to
